@@ -189,6 +189,10 @@ class Ctx:
                             f.write(json.dumps(c, separators=(",", ":")) + "\n")
                     p = spawn(pcf, ptf)
                     continue
+                if p.returncode in (-1, -2, -9, -15):
+                    # HUP / INT / KILL / TERM come from outside (an operator, the out-of-memory killer), never from the code
+                    # under test: not an observation about it
+                    raise ToolError(f"harness engine {engine} was killed from outside (signal {-p.returncode})")
                 if p.returncode < 0 and crash_is_data and ncrash < 200:
                     # killed by a signal: attribute it to the case whose `reset` was written last, continue after it
                     ncrash += 1
